@@ -11,7 +11,7 @@ VARS = ["python_version", "python_full_version", "os_name", "os.name", "sys_plat
         "platform_system", "platform_version", "platform.version", "platform_machine", "platform_python_implementation",
         "python_implementation", "implementation_name", "implementation_version", "extra"]
 MOPS = ["==", "!=", "<", "<=", ">", ">=", "~=", "===", "in", "not in"]
-LITS = ["posix", "3.8", "1.0", "linux", "x86_64", "A_b", "a-b", "", "win32", "3.10.0", "1.0+local", "cpython", "2.7.*", "a b"]
+LITS = ["posix", "3.8", "1.0", "linux", "x86_64", "A_b", "a-b", "", "win32", "3.10.0", "1.0+local", "cpython", "2.7.*", "a b", "extra", "os_name"]
 NAMES = ["foo", "Foo_Bar", "a.b-c", "x1", "A", "name", "zope.interface", "p-y_t.h"]
 
 
